@@ -94,7 +94,43 @@ def post_c05diff(work, reports, ctx):
             'violations_total': n_mismatch, 'violations': list(merged.values()), 'inconclusive': inconclusive, 'notes': []}
 
 
-POSTS = {'c05diff': post_c05diff}
+def post_c18diff(work, reports, ctx):
+    """Offline checker: the behaviour traces written by the tz-fat build (rel)
+    and the build without in-memory fattening (nofat) must be identical, zone
+    by zone and section by section."""
+    import re
+    sections = ['offset-info', 'civil', 'following', 'preceding', 'print']
+    tr = {'rel': {}, 'nofat': {}}
+    for f in glob.glob(os.path.join(work, 's*-*-*.json.c18')):
+        m = re.search(r's\d+-(rel|nofat)-\d+\.json\.c18$', f)
+        if not m:
+            continue
+        for line in open(f):
+            p = line.rstrip('\n').split('\t')
+            if len(p) == 7:
+                tr[m.group(1)][p[0]] = p[1:]
+    inconclusive = []
+    viols = {}
+    compared = 0
+    if not tr['rel'] or set(tr['rel']) != set(tr['nofat']):
+        inconclusive.append('behaviour traces missing or not paired: %d zones with tz-fat, %d without' % (len(tr['rel']), len(tr['nofat'])))
+    for z in sorted(set(tr['rel']) & set(tr['nofat'])):
+        compared += 1
+        d10 = tr['rel'][z][5] == 'd10'
+        for k, (a, b) in enumerate(zip(tr['rel'][z][:5], tr['nofat'][z][:5])):
+            if a != b:
+                # zones whose footer rule has a transition in the adjacent UTC year: known finding D10 (the rule is evaluated
+                # at look-up time without fattening, and materialised by it with fattening)
+                cls = f'tz-fat-on-vs-off/differs[{sections[k]}]' + (' [posix-rule-in-adjacent-utc-year]' if d10 else '')
+                if cls in viols:
+                    viols[cls]['count'] += 1
+                else:
+                    viols[cls] = {'class': cls, 'case': f'cmp|nofat|{z}', 'expected': f'trace hash {a} (tz-fat)', 'got': f'{b} (no tz-fat)', 'count': 1}
+    return {'flavour': 'offline', 'evaluations': compared * 5, 'distinct_nontrivial': 0, 'samples': [], 'counters': {'fat_nofat_zone_traces_compared': compared},
+            'violations_total': sum(v['count'] for v in viols.values()), 'violations': list(viols.values()), 'inconclusive': inconclusive, 'notes': []}
+
+
+POSTS = {'c05diff': post_c05diff, 'c18diff': post_c18diff}
 
 COMMON_ASSUME = [
     'reference models in /verif/harness/src/{cal,tzref,arith}.rs are the trusted base; cal is cross-checked odometer vs Hinnant over the full range at start-up',
@@ -420,4 +456,26 @@ PROPS['C17'] = dict(
     level_note='"All byte strings" is unbounded: reach is volume plus grammar- and structure-aware mutation; a green run is a statement about the inputs counted in coverage. Memory-safety tooling (Miri/ASan) is applied to the TimeZone representation under C20; the parsers themselves contain no unsafe code.',
     technique='hostile-workload monitoring (panic hook + range/round-trip/termination/CPU-scaling monitors) over grammar-aware text mutation and structure-aware TZif mutation; release + debug-assertion builds',
     design_ref='DESIGN.md section 4, C17',
+)
+
+PROPS['C18'] = dict(
+    sub='c18',
+    prep=['synth'],
+    post=['c18diff'],
+    quick=[S('rel'), S('dbg'), S('static'), S('nofat', 'trace_only')],
+    thorough=[S('rel'), S('dbg'), S('static'), S('nofat', 'trace_only')],
+    rule='zones: every system zoneinfo file, every synthetic zone (zonesrc/odd.zi + seeded zicgen, slim and fat), every bundled jiff-tzdb zone. Probes per zone from the reference model: candidate change instants x 8 offsets-in-time + limits + seeded instants, the wall-clock readings on both sides of every candidate, 7 iterator starts x both directions x 60 steps, 6 printed Zoned. '
+         'Loaders compared element by element against TimeZone::tzif(name, bytes): TimeZoneDatabase::from_dir on a scratch tree, from_concatenated_path on a container written by harness/src/concat.rs, TimeZoneDatabase::bundled(), jiff::tz::db(); static tz::get! (every 3rd bundled name + 16 awkward ones) and tz::include! (all accepted zonesrc zones, slim and fat) in the "static" build; '
+         'tz-fat on vs off as hashed traces diffed offline; the jiff-static copy of the TZif parser compiled into the harness (transition table, civil start/end kinds, footer rule) against the handle; slim vs fat zic output as functions of the instant and by info changes; '
+         'names: upper, lower and 4 seeded mixed-case spellings per zone per back-end must resolve to the canonical name and behave the same; POSIX TZ strings (15 fixed, seeded, every footer): time_zone_to_string -> TimeZone::posix must behave identically and compare equal. '
+         'distinct_nontrivial = distinct zones + distinct POSIX strings (every 4th)',
+    floors={'quick': {'zones': 500, 'static_get_zones': 150, 'static_include_zones': 20, 'fat_nofat_zone_traces_compared': 500, 'evaluations': 2000000},
+            'thorough': {'zones': 500, 'static_get_zones': 150, 'static_include_zones': 20, 'fat_nofat_zone_traces_compared': 500, 'evaluations': 5000000}},
+    assumptions=COMMON_ASSUME + TZ_ASSUME + ['handles from different loaders are compared on the probe set, not on all instants',
+                                             'static handles are not expected to compare == with heap handles (different representation by design); heap handles from all loaders are',
+                                             'system zoneinfo and the bundled database are different tzdata releases and are not compared with each other'],
+    level_text='Differential monitoring of the real loaders: the same TZif bytes loaded through every back-end (and compiled in by the proc macros) are driven with the same model-derived probes and must answer identically; build configurations (tz-fat on/off) are compared through recorded behaviour traces.',
+    level_note='Trusted base: the probe generator (reference model) and the concatenated-container writer in harness/src/concat.rs. The static macros are exercised on a third of the bundled names (compile time).',
+    technique='differential runtime monitoring across loaders and build configurations: element-wise comparison of handle behaviour on model-derived probes, offline diff of recorded behaviour traces (tz-fat on/off), proc-macro-built handles in a dedicated build',
+    design_ref='DESIGN.md section 4, C18',
 )
